@@ -114,14 +114,17 @@ func (tpl *Template) newContextForExecution(context Context) (*Template, *Execut
 				return parent, nil, err
 			}
 
-			// Check for clashes with macro names
+			// Check for clashes with macro names: those of the template and
+			// of every template it extends (the document that is executed is
+			// the root ancestor's)
 			for k := range newContext {
-				_, has := tpl.exportedMacros[k]
-				if has {
-					return parent, nil, &Error{
-						Filename:  tpl.name,
-						Sender:    "execution",
-						OrigError: fmt.Errorf("context key name '%s' clashes with macro '%s'", k, k),
+				for t := tpl; t != nil; t = t.parent {
+					if _, has := t.exportedMacros[k]; has {
+						return parent, nil, &Error{
+							Filename:  t.name,
+							Sender:    "execution",
+							OrigError: fmt.Errorf("context key name '%s' clashes with macro '%s'", k, k),
+						}
 					}
 				}
 			}
